@@ -1,22 +1,395 @@
 package transfer
 
-// Source harnesses (CBMC idiom). Executed symbolically by symgo; compiled natively for replay.
+import (
+	"io"
 
-var vHarnesses = map[string]func(){}
+	"github.com/sheerbytes/sheerbytes/pkg/manifest"
+)
 
-func init() {
-	vHarnesses["H_smoke"] = H_smoke
+// Source harnesses (CBMC idiom): arbitrary inputs from v* functions, assumptions stating the bound,
+// the property as plain assertions. Executed symbolically by symgo; compiled natively for replay.
+
+// ---------------------------------------------------------------------------------------------
+// C19: chunk geometry
+
+// H_C19_tiling: chunkTotal / chunkSizeForIndex tile [0, fileSize) exactly, for every file size up to
+// 10 TiB, every chunk size 1..2^32-1 whose chunk count fits 32 bits, every chunk index below the count.
+func H_C19_tiling() {
+	fs := vI64("fs")
+	cs := vU32("cs")
+	idx := vU32("idx")
+	vAssume(fs >= 0)
+	vAssume(fs <= 10<<40)
+	vAssume(cs >= 1)
+	q := (fs + int64(cs) - 1) / int64(cs) // mathematical ceil: no overflow, fs + cs < 2^45
+	vAssume(q <= 0xFFFFFFFF)
+	total := chunkTotal(fs, cs)
+	vAssert(int64(total) == q, "chunkTotal equals ceil(fileSize/chunkSize)")
+	vAssert((total == 0) == (fs == 0), "zero chunks iff empty file")
+	vAssume(idx < total)
+	vCover("C19 tiling reached")
+	ln := chunkSizeForIndex(fs, cs, idx)
+	off := int64(idx) * int64(cs)
+	vAssert(off >= 0, "offset does not wrap")
+	vAssert(ln > 0, "chunk non-empty")
+	vAssert(ln <= cs, "chunk at most chunkSize")
+	vAssert(off+int64(ln) <= fs, "chunk inside file")
+	if idx+1 < total {
+		vAssert(ln == cs, "inner chunk is full")
+		// next chunk starts where this one ends
+		vAssert(int64(idx+1)*int64(cs) == off+int64(ln), "contiguous")
+	} else {
+		vAssert(off+int64(ln) == fs, "last chunk ends at file size")
+	}
 }
 
-func H_smoke() {
-	x := vU32("x")
-	y := vU32("y")
-	vAssume(x < 100)
-	vAssume(y < 100)
-	if x > y {
-		vAssert(x-y < 100, "diff small")
-	} else {
-		vAssert(y-x < 100, "diff small 2")
+// H_C19_sidecar_count: the resume metadata agrees with the sender/receiver count for every
+// (size, chunk size) whose bitmap fits the modelled allocation bound.
+func H_C19_sidecar_count() {
+	fs := vI64("fs")
+	cs := vU32("cs")
+	vAssume(fs >= 0)
+	vAssume(fs <= 10<<40)
+	vAssume(cs >= 1)
+	q := (fs + int64(cs) - 1) / int64(cs)
+	vAssume(q <= 0xFFFFFFFF)
+	dir := vTempDir()
+	sc, err := CreateSidecar(dir+"/x.sbxmap", "id", fs, cs)
+	vAssume(err == nil)
+	vCover("C19 sidecar created")
+	vAssert(sc.TotalChunks == chunkTotal(fs, cs), "sidecar chunk count equals chunkTotal")
+}
+
+// ---------------------------------------------------------------------------------------------
+// in-memory stream used by the codec harnesses (real Go code, interpreted like everything else)
+
+type vMemStream struct {
+	buf     []byte
+	rpos    int
+	maxRead int // 0 = unlimited; otherwise every Read returns at most maxRead bytes (short reads)
+	closed  bool
+}
+
+func (m *vMemStream) Read(p []byte) (int, error) {
+	if m.rpos >= len(m.buf) {
+		return 0, io.EOF
 	}
-	vAssert(x+y != 77, "sum not 77")
+	avail := m.buf[m.rpos:]
+	if m.maxRead > 0 && len(avail) > m.maxRead {
+		avail = avail[:m.maxRead]
+	}
+	n := copy(p, avail)
+	m.rpos += n
+	return n, nil
+}
+
+func (m *vMemStream) Write(p []byte) (int, error) {
+	m.buf = append(m.buf, p...)
+	return len(p), nil
+}
+
+func (m *vMemStream) Close() error { m.closed = true; return nil }
+
+var vPathLens = []int{0, 1, 2, 255, 256, 1023, 1024}
+var vIDLens = []int{0, 1, 2, 255, 256, 65535}
+var vBitmapLens = []int{0, 1, 2, 8, 4096}
+
+func vShortReads() int { return vChoice("maxRead", 3) } // 0 unlimited, 1, 2
+
+// short-read schedules only for fields up to 256 bytes (byte-wise reads of 64 KiB fields add nothing but time)
+func vShortReadsFor(n int) int {
+	if n > 256 {
+		return 0
+	}
+	return vShortReads()
+}
+
+// ---------------------------------------------------------------------------------------------
+// C18: control-protocol round trips
+
+func H_C18_FileBegin() {
+	pl := vPathLens[vChoice("pathLenIdx", len(vPathLens))]
+	path := vString("path", pl)
+	vAssume(validateRelPath(path) == nil) // the writer refuses other paths
+	msg := FileBegin{RelPath: path, FileSize: vU64("fileSize"), ChunkSize: vU32("chunkSize"), StreamID: vU64("streamID"),
+		HashAlg: vU8("hashAlg"), StripeIndex: vU16("si"), StripeCount: vU16("sc"), StripeStart: vU32("ss"), StripeChunks: vU32("sch")}
+	s := &vMemStream{maxRead: vShortReadsFor(pl)}
+	err := writeFileBegin(s, msg)
+	vAssert(err == nil, "writeFileBegin succeeds on a valid path")
+	n := len(s.buf)
+	typ, got, err := readControlMessage(s)
+	vAssert(err == nil, "FileBegin decodes without error")
+	vAssert(typ == controlTypeFileBegin, "FileBegin type byte")
+	fb, ok := got.(FileBegin)
+	vAssert(ok, "FileBegin dynamic type")
+	vAssert(fb == msg, "FileBegin value round-trips")
+	vAssert(s.rpos == n, "FileBegin consumes exactly the bytes written")
+	vCover("C18 FileBegin")
+}
+
+func H_C18_FileDone() {
+	el := vIDLens[vChoice("errLenIdx", len(vIDLens))]
+	msg := FileDone{StreamID: vU64("streamID"), OK: vBool("ok"), ErrMsg: vString("err", el)}
+	s := &vMemStream{maxRead: vShortReadsFor(el)}
+	err := writeFileDone(s, msg)
+	vAssert(err == nil, "writeFileDone succeeds")
+	n := len(s.buf)
+	typ, got, err := readControlMessage(s)
+	vAssert(err == nil, "FileDone decodes without error")
+	vAssert(typ == controlTypeFileDone, "FileDone type byte")
+	fd, ok := got.(FileDone)
+	vAssert(ok, "FileDone dynamic type")
+	vAssert(fd == msg, "FileDone value round-trips")
+	vAssert(s.rpos == n, "FileDone consumes exactly the bytes written")
+	vCover("C18 FileDone")
+}
+
+func H_C18_FileResumeInfo() {
+	il := vIDLens[vChoice("idLenIdx", len(vIDLens))]
+	bl := vBitmapLens[vChoice("bmLenIdx", len(vBitmapLens))]
+	msg := FileResumeInfo{FileID: vString("id", il), StreamID: vU64("streamID"), TotalChunks: vU32("total"),
+		Bitmap: vBytes("bitmap", bl), LastVerifiedChunk: vU32("lvc"), LastVerifiedHash: vU64("lvh")}
+	s := &vMemStream{maxRead: vShortReadsFor(il + bl)}
+	err := writeFileResumeInfo(s, msg)
+	vAssert(err == nil, "writeFileResumeInfo succeeds")
+	n := len(s.buf)
+	typ, got, err := readControlMessage(s)
+	vAssert(err == nil, "FileResumeInfo decodes without error")
+	vAssert(typ == controlTypeFileResumeInfo, "FileResumeInfo type byte")
+	ri, ok := got.(FileResumeInfo)
+	vAssert(ok, "FileResumeInfo dynamic type")
+	vAssert(ri.FileID == msg.FileID, "FileResumeInfo.FileID")
+	vAssert(ri.StreamID == msg.StreamID, "FileResumeInfo.StreamID")
+	vAssert(ri.TotalChunks == msg.TotalChunks, "FileResumeInfo.TotalChunks")
+	vAssert(vBytesEq(ri.Bitmap, msg.Bitmap), "FileResumeInfo.Bitmap")
+	vAssert(ri.LastVerifiedChunk == msg.LastVerifiedChunk, "FileResumeInfo.LastVerifiedChunk")
+	vAssert(ri.LastVerifiedHash == msg.LastVerifiedHash, "FileResumeInfo.LastVerifiedHash")
+	vAssert(s.rpos == n, "FileResumeInfo consumes exactly the bytes written")
+	vCover("C18 FileResumeInfo")
+}
+
+func H_C18_ResumeRequest() {
+	il := vIDLens[vChoice("idLenIdx", len(vIDLens))]
+	msg := ResumeRequest{FileID: vString("id", il), StreamID: vU64("streamID")}
+	s := &vMemStream{maxRead: vShortReadsFor(il)}
+	err := writeResumeRequest(s, msg)
+	vAssert(err == nil, "writeResumeRequest succeeds")
+	n := len(s.buf)
+	typ, got, err := readControlMessage(s)
+	vAssert(err == nil, "ResumeRequest decodes without error")
+	vAssert(typ == controlTypeResumeRequest, "ResumeRequest type byte")
+	rr, ok := got.(ResumeRequest)
+	vAssert(ok, "ResumeRequest dynamic type")
+	vAssert(rr == msg, "ResumeRequest value round-trips")
+	vAssert(s.rpos == n, "ResumeRequest consumes exactly the bytes written")
+	vCover("C18 ResumeRequest")
+}
+
+func H_C18_small() {
+	s := &vMemStream{maxRead: vShortReads()}
+	switch vChoice("kind", 5) {
+	case 0:
+		msg := FileEnd{StreamID: vU64("streamID"), CRC32: vU32("crc")}
+		vAssert(writeFileEnd(s, msg) == nil, "writeFileEnd succeeds")
+		n := len(s.buf)
+		typ, got, err := readControlMessage(s)
+		vAssert(err == nil, "FileEnd decodes without error")
+		vAssert(typ == controlTypeFileEnd, "FileEnd type byte")
+		fe, ok := got.(FileEnd)
+		vAssert(ok, "FileEnd dynamic type")
+		vAssert(fe == msg, "FileEnd value round-trips")
+		vAssert(s.rpos == n, "FileEnd consumes exactly the bytes written")
+		vCover("C18 FileEnd")
+	case 1:
+		msg := Credit{StreamID: vU64("streamID"), Credits: vU32("credits")}
+		vAssert(writeCredit(s, msg) == nil, "writeCredit succeeds")
+		n := len(s.buf)
+		typ, got, err := readControlMessage(s)
+		vAssert(err == nil, "Credit decodes without error")
+		vAssert(typ == controlTypeCredit, "Credit type byte")
+		c, ok := got.(Credit)
+		vAssert(ok, "Credit dynamic type")
+		vAssert(c == msg, "Credit value round-trips")
+		vAssert(s.rpos == n, "Credit consumes exactly the bytes written")
+		vCover("C18 Credit")
+	case 2:
+		msg := DataStreams{Count: vU16("count")}
+		vAssert(writeDataStreams(s, msg) == nil, "writeDataStreams succeeds")
+		n := len(s.buf)
+		typ, got, err := readControlMessage(s)
+		vAssert(err == nil, "DataStreams decodes without error")
+		vAssert(typ == controlTypeDataStreams, "DataStreams type byte")
+		d, ok := got.(DataStreams)
+		vAssert(ok, "DataStreams dynamic type")
+		vAssert(d == msg, "DataStreams value round-trips")
+		vAssert(s.rpos == n, "DataStreams consumes exactly the bytes written")
+		vCover("C18 DataStreams")
+	case 3:
+		vAssert(writeControlEnd(s) == nil, "writeControlEnd succeeds")
+		n := len(s.buf)
+		typ, got, err := readControlMessage(s)
+		vAssert(err == nil, "End decodes without error")
+		vAssert(typ == controlTypeEnd, "End type byte")
+		vAssert(got == nil, "End carries no value")
+		vAssert(s.rpos == n, "End consumes exactly the bytes written")
+		vCover("C18 End")
+	case 4:
+		k := vChoice("entries", 4)
+		var batch CreditBatch
+		for i := 0; i < k; i++ {
+			batch.Entries = append(batch.Entries, Credit{StreamID: vU64("sid"), Credits: vU32("cr")})
+		}
+		vAssert(writeCreditBatch(s, batch) == nil, "writeCreditBatch succeeds")
+		n := len(s.buf)
+		typ, got, err := readControlMessage(s)
+		vAssert(err == nil, "CreditBatch decodes without error")
+		vAssert(typ == controlTypeCreditBatch, "CreditBatch type byte")
+		cb, ok := got.(CreditBatch)
+		vAssert(ok, "CreditBatch dynamic type")
+		vAssert(len(cb.Entries) == k, "CreditBatch entry count")
+		for i := 0; i < k && i < len(cb.Entries); i++ {
+			vAssert(cb.Entries[i] == batch.Entries[i], "CreditBatch entry round-trips")
+		}
+		vAssert(s.rpos == n, "CreditBatch consumes exactly the bytes written")
+		vCover("C18 CreditBatch")
+	}
+}
+
+// vWriteAny writes one record of a symbolic kind with symbolic (small) contents and returns a
+// decoder check for it.
+func vWriteAny(s *vMemStream, tag string) func(typ byte, got any) {
+	switch vChoice("kind"+tag, 9) {
+	case 0:
+		path := vString("path"+tag, vChoice("pl"+tag, 3))
+		vAssume(validateRelPath(path) == nil)
+		m := FileBegin{RelPath: path, FileSize: vU64("fs" + tag), ChunkSize: vU32("cs" + tag), StreamID: vU64("sid" + tag), HashAlg: vU8("ha" + tag),
+			StripeIndex: vU16("si" + tag), StripeCount: vU16("sc" + tag), StripeStart: vU32("ss" + tag), StripeChunks: vU32("sch" + tag)}
+		vAssert(writeFileBegin(s, m) == nil, "seq: write FileBegin")
+		return func(typ byte, got any) {
+			vAssert(typ == controlTypeFileBegin, "seq: FileBegin type")
+			g, ok := got.(FileBegin)
+			vAssert(ok, "seq: FileBegin dyn type")
+			vAssert(g == m, "seq: FileBegin value")
+		}
+	case 1:
+		m := Credit{StreamID: vU64("sid" + tag), Credits: vU32("cr" + tag)}
+		vAssert(writeCredit(s, m) == nil, "seq: write Credit")
+		return func(typ byte, got any) {
+			vAssert(typ == controlTypeCredit, "seq: Credit type")
+			g, ok := got.(Credit)
+			vAssert(ok, "seq: Credit dyn type")
+			vAssert(g == m, "seq: Credit value")
+		}
+	case 2:
+		m := FileEnd{StreamID: vU64("sid" + tag), CRC32: vU32("crc" + tag)}
+		vAssert(writeFileEnd(s, m) == nil, "seq: write FileEnd")
+		return func(typ byte, got any) {
+			vAssert(typ == controlTypeFileEnd, "seq: FileEnd type")
+			g, ok := got.(FileEnd)
+			vAssert(ok, "seq: FileEnd dyn type")
+			vAssert(g == m, "seq: FileEnd value")
+		}
+	case 3:
+		m := FileDone{StreamID: vU64("sid" + tag), OK: vBool("ok" + tag), ErrMsg: vString("em"+tag, vChoice("el"+tag, 3))}
+		vAssert(writeFileDone(s, m) == nil, "seq: write FileDone")
+		return func(typ byte, got any) {
+			vAssert(typ == controlTypeFileDone, "seq: FileDone type")
+			g, ok := got.(FileDone)
+			vAssert(ok, "seq: FileDone dyn type")
+			vAssert(g == m, "seq: FileDone value")
+		}
+	case 4:
+		m := FileResumeInfo{FileID: vString("id"+tag, vChoice("il"+tag, 3)), StreamID: vU64("sid" + tag), TotalChunks: vU32("tc" + tag),
+			Bitmap: vBytes("bm"+tag, vChoice("bl"+tag, 3)), LastVerifiedChunk: vU32("lvc" + tag), LastVerifiedHash: vU64("lvh" + tag)}
+		vAssert(writeFileResumeInfo(s, m) == nil, "seq: write FileResumeInfo")
+		return func(typ byte, got any) {
+			vAssert(typ == controlTypeFileResumeInfo, "seq: FileResumeInfo type")
+			g, ok := got.(FileResumeInfo)
+			vAssert(ok, "seq: FileResumeInfo dyn type")
+			vAssert(g.FileID == m.FileID, "seq: FileResumeInfo.FileID")
+			vAssert(g.StreamID == m.StreamID, "seq: FileResumeInfo.StreamID")
+			vAssert(g.TotalChunks == m.TotalChunks, "seq: FileResumeInfo.TotalChunks")
+			vAssert(vBytesEq(g.Bitmap, m.Bitmap), "seq: FileResumeInfo.Bitmap")
+			vAssert(g.LastVerifiedChunk == m.LastVerifiedChunk, "seq: FileResumeInfo.LastVerifiedChunk")
+			vAssert(g.LastVerifiedHash == m.LastVerifiedHash, "seq: FileResumeInfo.LastVerifiedHash")
+		}
+	case 5:
+		m := ResumeRequest{FileID: vString("id"+tag, vChoice("il"+tag, 3)), StreamID: vU64("sid" + tag)}
+		vAssert(writeResumeRequest(s, m) == nil, "seq: write ResumeRequest")
+		return func(typ byte, got any) {
+			vAssert(typ == controlTypeResumeRequest, "seq: ResumeRequest type")
+			g, ok := got.(ResumeRequest)
+			vAssert(ok, "seq: ResumeRequest dyn type")
+			vAssert(g == m, "seq: ResumeRequest value")
+		}
+	case 6:
+		k := vChoice("n"+tag, 3)
+		var m CreditBatch
+		for i := 0; i < k; i++ {
+			m.Entries = append(m.Entries, Credit{StreamID: vU64("bsid" + tag), Credits: vU32("bcr" + tag)})
+		}
+		vAssert(writeCreditBatch(s, m) == nil, "seq: write CreditBatch")
+		return func(typ byte, got any) {
+			vAssert(typ == controlTypeCreditBatch, "seq: CreditBatch type")
+			g, ok := got.(CreditBatch)
+			vAssert(ok, "seq: CreditBatch dyn type")
+			vAssert(len(g.Entries) == k, "seq: CreditBatch count")
+			for i := 0; i < k && i < len(g.Entries); i++ {
+				vAssert(g.Entries[i] == m.Entries[i], "seq: CreditBatch entry")
+			}
+		}
+	case 7:
+		m := DataStreams{Count: vU16("cnt" + tag)}
+		vAssert(writeDataStreams(s, m) == nil, "seq: write DataStreams")
+		return func(typ byte, got any) {
+			vAssert(typ == controlTypeDataStreams, "seq: DataStreams type")
+			g, ok := got.(DataStreams)
+			vAssert(ok, "seq: DataStreams dyn type")
+			vAssert(g == m, "seq: DataStreams value")
+		}
+	default:
+		vAssert(writeControlEnd(s) == nil, "seq: write End")
+		return func(typ byte, got any) {
+			vAssert(typ == controlTypeEnd, "seq: End type")
+			vAssert(got == nil, "seq: End value")
+		}
+	}
+}
+
+func vSeq(k int) {
+	s := &vMemStream{}
+	var checks []func(byte, any)
+	tags := []string{"A", "B", "C"}
+	for i := 0; i < k; i++ {
+		checks = append(checks, vWriteAny(s, tags[i]))
+	}
+	for i := 0; i < k; i++ {
+		typ, got, err := readControlMessage(s)
+		vAssert(err == nil, "seq: record decodes without error")
+		checks[i](typ, got)
+	}
+	vAssert(s.rpos == len(s.buf), "seq: stream exhausted after the last record")
+	_, _, err := readControlMessage(s)
+	vAssert(err != nil, "seq: reading past the end reports an error")
+	vCover("C18 sequence")
+}
+
+func H_C18_seq2() { vSeq(2) }
+func H_C18_seq3() { vSeq(3) }
+
+// H_C18_header: control header with the JSON codec opaque (Marshal yields arbitrary bytes of a
+// chosen length, Unmarshal of exactly those bytes yields the value back).
+func H_C18_header() {
+	var m manifest.Manifest
+	m.Root = vString("root", vChoice("rootLen", 3))
+	m.FileCount = vInt("fileCount")
+	s := &vMemStream{maxRead: vShortReads()}
+	vAssert(writeControlHeader(s, m) == nil, "writeControlHeader succeeds")
+	n := len(s.buf)
+	got, err := readControlHeader(s)
+	vAssert(err == nil, "control header decodes without error")
+	vAssert(got.Root == m.Root, "header manifest root")
+	vAssert(got.FileCount == m.FileCount, "header manifest count")
+	vAssert(s.rpos == n, "control header consumes exactly the bytes written")
+	vCover("C18 header")
 }
